@@ -33,8 +33,9 @@ def strategy_(draw, tier):
     X, Y = d["X"], d["Y"]
     n, m = X.shape
     q = draw(st.integers(1, 6))
-    Xnew = gen.normal(draw, (q, m)) * draw(st.sampled_from([0.1, 1.0, 3.0]))
-    return {"shape": d["shape"], "lowrank": d["lowrank"], "X": X, "Y": Y, "Xnew": Xnew,
+    Xnew = gen.normal(draw, (q, m)) * draw(st.sampled_from([0.1, 1.0, 3.0])) + draw(st.sampled_from([0.0, 0.0, 1.0])) * gen.normal(draw, (m,))
+    Ynew = gen.normal(draw, (q, Y.shape[1])) + draw(st.sampled_from([0.0, 1.0]))
+    return {"shape": d["shape"], "lowrank": d["lowrank"], "X": X, "Y": Y, "Xnew": Xnew, "Ynew": Ynew,
             "mixing": draw(st.sampled_from([0.05, 0.3, 0.5, 0.9, 1.0])),
             "space": draw(st.sampled_from(["feature", "sample"])),
             "alpha": draw(st.sampled_from([1e-6, 1e-2, 1.0])),
@@ -109,6 +110,16 @@ def check(case, ctx):
         ctx.close("score", s, -(lX / nX2 + lY / nY2), 1e-9 * (1 + lX / nX2 + lY / nY2), wh + " score vs -(lX+lY)")
         lx.append(lX)
         ly.append(lY)
+        # the same identity on new (not centred) data
+        if "Ynew" in case:
+            Yn = case["Ynew"]
+            with ctx.lib("score(new data)"):
+                sn = p.score(Xnew, Yn[:, 0] if case["y1d"] else Yn)
+                Rn = p.inverse_transform(Tn)
+            yn = np.asarray(pTn).reshape(len(Xnew), -1)
+            lXn = float(((Xnew - Rn) ** 2).sum()) / float((Xnew ** 2).sum())
+            lYn = float(((Yn - yn) ** 2).sum()) / float((Yn ** 2).sum())
+            ctx.close("score(new data)", sn, -(lXn + lYn), 1e-9 * (1 + lXn + lYn), wh + " score on new data vs -(lX+lY)")
         # nestedness
         if prevT is not None:
             for j in range(k - 1):
